@@ -201,8 +201,8 @@ class SqlalchemyKind(Kind):
     def supports(self, shape, sch):
         if sch.get("aslist"):
             return "sqlalchemy: the order of mapped fields is not registered, as_list=True is not supported (documented)"
-        if any(f["ty"] == "dec" for f in shape):
-            return "the harness declares no Decimal columns"
+        if any(f["ty"] == "dec" or (f["ty"] == "any" and not f["req"]) for f in shape):
+            return "the harness declares no Decimal columns and no defaults of JSON columns"
         if shape[0]["ty"] != "int" or not shape[0]["req"]:
             return "the harness uses the first field as the primary key"
         return None
